@@ -7,9 +7,15 @@
   * expression  `coeffbits@sym:p/q;sym:p/q`
   * units_map   `dim=expr|dim=none|…`   (dim = eight comma-separated rationals)
   * extra rows of the registry table   `name&scalebits&offsetbits&dim&0|1` joined by `|`
+  * a registry history (`c10.hist`): one field per item, parts joined by `!` —
+    `I!name!um!base` (an object registered before the history starts, in registry order),
+    `C!name!0|1!u1!…!u8` (construction; 1 = `registry=UnitRegistry()`), `G!obj!dim`, `S!obj!dim!expr`,
+    `N!name`, `O!obj`; the reply lists every answer, the final dict `name=obj,…`, the invariant
+    check, and every live object as `name#um#base`
 -/
 import UnytModel.DriverBase
 import UnytModel.SystemTables
+import UnytModel.SystemRegistry
 
 namespace Unyt
 namespace C10Wire
@@ -61,6 +67,54 @@ def lutWith (st : DriverState) (extra : Lut Float) : Lut Float :=
   extra.foldr (fun (k, e) t => Lut.set t k e) (st.luts[0]!)
 
 def sysOf (um : UMap Float) : USys Float := { name := "wire", um := um, base := um }
+
+inductive HistItem
+  | init (S : USys Float)
+  | op (o : SysOp Float)
+
+def parseHistItem (st : DriverState) (s : String) : Option HistItem :=
+  match s.splitOn "!" with
+  | ["I", name, um, base] => do
+    let m ← parseUm um
+    let b ← parseUm base
+    some (.init { name := name, um := m, base := b })
+  | ["C", name, reg, u1, u2, u3, u4, u5, u6, u7, u8] => do
+    let reg ← parseBool reg
+    let us ← [u1, u2, u3, u4, u5, u6, u7, u8].mapM parseOptExpr
+    some (.op (.construct name (if reg then some (st.luts[0]!) else none) us))
+  | ["G", i, d] => do
+    let i ← i.toNat?
+    let d ← Dim.parse d
+    some (.op (.getitem i d))
+  | ["S", i, d, e] => do
+    let i ← i.toNat?
+    let d ← Dim.parse d
+    let e ← parseExpr e
+    some (.op (.setitem i d e))
+  | ["N", name] => some (.op (.byName name))
+  | ["O", i] => do
+    let i ← i.toNat?
+    some (.op (.byObject i))
+  | _ => none
+
+def outStr : SysOut Float → String
+  | .built i => s!"built:{i}"
+  | .unit e => s!"unit:{exprStr e}"
+  | .done => "done"
+  | .system i => s!"system:{i}"
+  | .raised e => s!"raised:{e.str}"
+
+/-- run a history on `SysWorld.step` (the function `UnytProofs/C10Registry.lean` is about) -/
+def runHist (st : DriverState) (items : List HistItem) : String :=
+  let inits := items.filterMap fun | .init S => some S | _ => none
+  let ops := items.filterMap fun | .op o => some o | _ => none
+  let W0 := SysWorld.ofSystems inits
+  let t0 := st.luts[0]!
+  let r := SysWorld.trace st.pre t0 Generated.invNames W0 ops
+  let names := ",".intercalate (r.1.names.map fun (n, i) => s!"{n}={i}")
+  let inv := if r.1.checkB st.pre t0 Generated.invNames then "1" else "0"
+  let objs := r.1.heap.map fun o => s!"{o.sys.name}#{umStr o.sys.um}#{umStr o.sys.base}"
+  "\t".intercalate (["ok", toString ops.length] ++ r.2.map outStr ++ [names, inv] ++ objs)
 
 end C10Wire
 
@@ -146,6 +200,11 @@ def opsC10 : Handler := fun st fields =>
         | .error e => some (st, s!"err\t{e.str}")
         | .ok (y, v) => some (st, s!"{unitOut v}\t{bitsStr y}")
     | _, _, _, _ => none
+  -- a history over `unit_system_registry`
+  | "c10.hist" :: items =>
+    match items.mapM (parseHistItem st) with
+    | some its => some (st, runHist st its)
+    | none => none
   -- the row classifier the kernel decides (at ℚ), executed
   | ["c10.verdict", sys, name] =>
     match rawSystem? sys with
